@@ -409,3 +409,287 @@ Proof.
   - intros x; apply dle_refl.
   - intros x. split; [|auto]. unfold lookrel. rewrite lookup_with_out. destruct (lookup _ x); [apply ole_refl|exact I].
 Qed.
+
+(** ======================= the precompile call ======================= *)
+
+(** unwinding plain entries is monotone for the body-mode relation (stores may differ) *)
+Lemma rel_unwind_plain sc es : forall s s' j,
+  rel false sc s s' -> journal s = es ++ j -> Forall plain es -> repaired (cf s) = true ->
+  rel false sc (unwind_k (length es) s) (unwind_k (length es) s').
+Proof.
+  induction es as [|e es IH]; intros s s' j HR Hj Hp Hrep; simpl; [exact HR|].
+  inversion Hp as [|? ? Hpe Hpes]; subst.
+  simpl in Hj.
+  assert (H1 : rel false sc (pop_undo s) (pop_undo s')).
+  { eapply rel_pop_undo; eauto. destruct e; simpl in *; auto; contradiction. }
+  eapply IH; [exact H1 | apply (pop_undo_journal s e (es ++ j) Hj) | exact Hpes | rewrite pop_undo_cf; exact Hrep].
+Qed.
+
+Definition domsub (sc : addr -> bool) (s : sdb) : Prop := forall a, sc a = true -> objs s a <> None.
+
+(** body-mode op_ok: pushes only plain entries; unwinding them gives a body-mode refinement *)
+Definition bop_ok (sc : addr -> bool) (s s' : sdb) : Prop :=
+  WFJ s -> domsub sc s ->
+  exists es, journal s' = es ++ journal s /\ Forall plain es /\
+             rel false sc s (unwind_k (length es) s') /\ WFJ s' /\ domsub sc s'.
+
+Lemma bop_ok_refl sc s : bop_ok sc s s.
+Proof. intros HW HD. exists []. split; [reflexivity|]. split; [constructor|]. split; [apply rel_refl|]. split; assumption. Qed.
+
+Lemma bop_ok_trans sc s s1 s2 : bop_ok sc s s1 -> bop_ok sc s1 s2 -> bop_ok sc s s2.
+Proof.
+  intros H1 H2 HW HD. destruct (H1 HW HD) as (es1 & J1 & P1 & R1 & W1 & D1).
+  destruct (H2 W1 D1) as (es2 & J2 & P2 & R2 & W2 & D2).
+  exists (es2 ++ es1). split; [rewrite J2, J1, app_assoc; reflexivity|].
+  split; [apply Forall_app; auto|]. split; [|auto].
+  rewrite app_length, unwind_k_add.
+  eapply rel_trans; [exact R1|].
+  destruct W1 as (_&_&Hrep).
+  eapply rel_unwind_plain; [exact R2 | exact J1 | exact P1 | exact Hrep].
+Qed.
+
+(** SetBalanceWei on an account that exists: exactly one EBalance entry *)
+Lemma set_balance_journal s a b o :
+  lookup s a = Some o -> journal (set_balance s a b) = EBalance a (bal o) :: journal s.
+Proof.
+  intros Hl. unfold set_balance, get_or_new, the_obj. rewrite Hl.
+  unfold set_obj; sdb_simp. rewrite push_journal, cached_journal. reflexivity.
+Qed.
+
+Lemma WFJ_with_cache s c : WFJ s -> WFJ (with_cache s c).
+Proof. intros H. eapply WFJ_ext; [exact H | reflexivity | reflexivity | auto]. Qed.
+
+Lemma rel_body_with_cache sc s c : domsub sc s -> rel false sc s (with_cache s c).
+Proof.
+  intros HD. repeat split; try reflexivity; try apply auxeq_refl; try discriminate; auto.
+  unfold lookrel, lookup. sdb_simp. pose proof (HD a H) as Hc.
+  destruct (objs s a); [apply ole_refl|contradiction].
+Qed.
+
+Lemma op_ok_domsub sc s s' : op_ok s s' -> WFJ s -> domsub sc s ->
+  (forall a, objs s a <> None -> objs s' a <> None) -> domsub sc s'.
+Proof. intros _ _ HD Hm a Ha. apply Hm, HD, Ha. Qed.
+
+Lemma set_balance_objs_mono s a b x : objs s x <> None -> objs (set_balance s a b) x <> None.
+Proof.
+  intros H. unfold set_balance, set_obj; sdb_simp. unfold upd. destruct (Z.eqb x a); [discriminate|].
+  rewrite push_objs. unfold get_or_new. destruct (lookup s a).
+  - apply objs_cached_mono; exact H.
+  - unfold set_obj; sdb_simp. unfold upd. destruct (Z.eqb x a); [discriminate|]. rewrite push_objs. exact H.
+Qed.
+
+Lemma bank_send_bop sc s f t amt : bop_ok sc s (bank_send s f t amt).
+Proof.
+  unfold bank_send. destruct (cache s) as [c|] eqn:Hc; [|apply bop_ok_refl].
+  destruct (_ || _) eqn:Hg; [apply bop_ok_refl|].
+  intros HW HD.
+  set (c1 := bank_move c f t amt).
+  set (sA := with_cache s (Some c1)).
+  set (bf := to_wei (bank_bal c1 f)). set (bt := to_wei (bank_bal c1 t)).
+  set (sB := set_balance sA f bf). set (sC := set_balance sB t bt).
+  assert (HWA : WFJ sA) by (apply WFJ_with_cache; exact HW).
+  (* both parties exist in the cache store after the move *)
+  assert (Hf : exists o, lookup sA f = Some o).
+  { unfold lookup. subst sA. sdb_simp. destruct (objs s f); [eauto|]. unfold cur_store; sdb_simp.
+    subst c1. unfold bank_move. simpl. unfold upd at 1. destruct (Z.eqb f t); [eauto|]. rewrite upd_same. eauto. }
+  destruct Hf as [of Hf].
+  assert (Ht : exists o, lookup sB t = Some o).
+  { subst sB. unfold set_balance. destruct (Z.eq_dec t f) as [->|Hne].
+    - rewrite lookup_set_same. eauto.
+    - rewrite lookup_set_other, lookup_push by assumption. unfold get_or_new. rewrite Hf, lookup_cached.
+      unfold lookup. subst sA. sdb_simp. destruct (objs s t); [eauto|]. unfold cur_store; sdb_simp.
+      subst c1. unfold bank_move. simpl. rewrite upd_same. eauto. }
+  destruct Ht as [ot Ht].
+  pose proof (set_balance_ok sA f bf) as OKB. fold sB in OKB.
+  pose proof (set_balance_ok sB t bt) as OKC. fold sC in OKC.
+  pose proof (op_ok_trans _ _ _ OKB OKC HWA) as (L & HL & HWC).
+  assert (JB : journal sB = EBalance f (bal of) :: journal s) by (subst sB; rewrite (set_balance_journal sA f bf of Hf); reflexivity).
+  assert (JC : journal sC = [EBalance t (bal ot); EBalance f (bal of)] ++ journal s).
+  { subst sC. rewrite (set_balance_journal sB t bt ot Ht), JB. reflexivity. }
+  exists [EBalance t (bal ot); EBalance f (bal of)].
+  split; [exact JC|]. split; [repeat constructor|]. split; [|split; [exact HWC|]].
+  - eapply rel_trans; [apply (rel_body_with_cache sc s (Some c1) HD)|]. fold sA.
+    apply rel_weaken.
+    replace (unwind_k (length [EBalance t (bal ot); EBalance f (bal of)]) sC) with (unwind (length (journal sA)) sC); [exact HL|].
+    apply (unwind_prefix _ (journal s)); [exact JC | reflexivity].
+  - intros a Ha. subst sC sB. apply set_balance_objs_mono, set_balance_objs_mono. subst sA. sdb_simp. apply HD, Ha.
+Qed.
+
+Lemma run_sends_bop sc sends : forall s, bop_ok sc s (run_sends sends s).
+Proof.
+  induction sends as [|x r IH]; intros s; [apply bop_ok_refl|].
+  unfold run_sends. simpl. eapply bop_ok_trans; [apply bank_send_bop|]. apply IH.
+Qed.
+
+(** ---- snapshot + flush ---- *)
+Definition snap_sc (s : sdb) : addr -> bool := fun a => match objs s a with Some _ => true | None => false end.
+Definition with_cache0 (s : sdb) : sdb := match cache s with Some _ => s | None => with_cache s (Some (txs s)) end.
+Definition snap_entry (s : sdb) : entry := EPrecompile (cur_store s) (dirt s) (snap_sc s).
+
+Lemma with_cache0_cur s : cur_store (with_cache0 s) = cur_store s.
+Proof. unfold with_cache0, cur_store. destruct (cache s) eqn:H; [rewrite H; reflexivity|reflexivity]. Qed.
+Lemma with_cache0_objs s : objs (with_cache0 s) = objs s.
+Proof. unfold with_cache0. destruct (cache s); reflexivity. Qed.
+Lemma with_cache0_dirt s : dirt (with_cache0 s) = dirt s.
+Proof. unfold with_cache0. destruct (cache s); reflexivity. Qed.
+Lemma with_cache0_journal s : journal (with_cache0 s) = journal s.
+Proof. unfold with_cache0. destruct (cache s); reflexivity. Qed.
+Lemma with_cache0_txs s : txs (with_cache0 s) = txs s.
+Proof. unfold with_cache0. destruct (cache s); reflexivity. Qed.
+Lemma with_cache0_cf s : cf (with_cache0 s) = cf s.
+Proof. unfold with_cache0. destruct (cache s); reflexivity. Qed.
+Lemma with_cache0_aux s : aux (with_cache0 s) = aux s.
+Proof. unfold with_cache0. destruct (cache s); reflexivity. Qed.
+Lemma with_cache0_calls s : calls (with_cache0 s) = calls s.
+Proof. unfold with_cache0. destruct (cache s); reflexivity. Qed.
+
+Lemma precompile_snapshot_eq s :
+  precompile_snapshot s = with_calls (push (with_cache0 s) (snap_entry s)) (calls s + 1).
+Proof.
+  unfold precompile_snapshot. fold (with_cache0 s). unfold snap_entry, snap_sc.
+  rewrite with_cache0_cur, with_cache0_dirt, with_cache0_objs, with_cache0_calls. reflexivity.
+Qed.
+
+Lemma snapshot_journal s : journal (precompile_snapshot s) = snap_entry s :: journal s.
+Proof. rewrite precompile_snapshot_eq. sdb_simp. rewrite push_journal, with_cache0_journal. reflexivity. Qed.
+Lemma snapshot_objs s : objs (precompile_snapshot s) = objs s.
+Proof. rewrite precompile_snapshot_eq. sdb_simp. rewrite push_objs, with_cache0_objs. reflexivity. Qed.
+Lemma snapshot_dirt s : dirt (precompile_snapshot s) = dirt s.
+Proof. rewrite precompile_snapshot_eq. sdb_simp. rewrite push_dirt. simpl. apply with_cache0_dirt. Qed.
+Lemma snapshot_txs s : txs (precompile_snapshot s) = txs s.
+Proof. rewrite precompile_snapshot_eq. sdb_simp. rewrite push_txs. apply with_cache0_txs. Qed.
+Lemma snapshot_cf s : cf (precompile_snapshot s) = cf s.
+Proof. rewrite precompile_snapshot_eq. sdb_simp. rewrite push_cf. apply with_cache0_cf. Qed.
+Lemma snapshot_aux s : aux (precompile_snapshot s) = aux s.
+Proof. rewrite precompile_snapshot_eq. sdb_simp. rewrite push_aux. apply with_cache0_aux. Qed.
+Lemma snapshot_cur s : cur_store (precompile_snapshot s) = cur_store s.
+Proof.
+  rewrite precompile_snapshot_eq. unfold cur_store at 1. sdb_simp. rewrite push_cache, push_txs.
+  apply with_cache0_cur.
+Qed.
+Lemma snapshot_calls s : calls (precompile_snapshot s) = calls s + 1.
+Proof. rewrite precompile_snapshot_eq. reflexivity. Qed.
+Lemma snapshot_lookup s a : lookup (precompile_snapshot s) a = lookup s a.
+Proof. unfold lookup. rewrite snapshot_objs, snapshot_cur. reflexivity. Qed.
+
+Lemma WFJ_snapshot s : WFJ s -> WFJ (precompile_snapshot s).
+Proof.
+  intros (W&O&R). split; [|split].
+  - unfold WF. rewrite snapshot_journal, snapshot_objs. intros sv sd sc [Heq|Hin] a Ha.
+    + inversion Heq; subst. unfold snap_sc in Ha. destruct (objs s a); [discriminate|discriminate].
+    + eapply W; eauto.
+  - rewrite snapshot_journal. simpl. split; [|exact O].
+    intros sv sd sc' Hin a Ha. unfold snap_sc. pose proof (W sv sd sc' Hin a Ha) as Hc.
+    destruct (objs s a); [reflexivity|contradiction].
+  - rewrite snapshot_cf. exact R.
+Qed.
+
+Lemma flush_objs_keep s x o : repaired (cf s) = true -> objs s x = Some o -> flush_objs s x = Some o.
+Proof.
+  intros Hr Ho. unfold flush_objs. destruct (dirt s x); [|exact Ho].
+  rewrite (lookup_objs s x o Ho), Hr. reflexivity.
+Qed.
+
+Lemma commit_cache_journal s : journal (commit_cache s) = journal s. Proof. reflexivity. Qed.
+Lemma commit_cache_txs s : txs (commit_cache s) = txs s. Proof. reflexivity. Qed.
+Lemma commit_cache_cf s : cf (commit_cache s) = cf s. Proof. reflexivity. Qed.
+Lemma commit_cache_aux s : aux (commit_cache s) = aux s. Proof. reflexivity. Qed.
+Lemma commit_cache_calls s : calls (commit_cache s) = calls s. Proof. reflexivity. Qed.
+Lemma commit_cache_objs s : objs (commit_cache s) = flush_objs s. Proof. reflexivity. Qed.
+
+Lemma WFJ_commit_cache s : WFJ s -> WFJ (commit_cache s).
+Proof.
+  intros H. pose proof H as (_&_&R). eapply WFJ_ext; [exact H | reflexivity | reflexivity |].
+  intros x Hx. rewrite commit_cache_objs. destruct (objs s x) as [o|] eqn:Ho; [|contradiction].
+  rewrite (flush_objs_keep s x o R Ho). discriminate.
+Qed.
+
+(** popping the PrecompileCalled entry from anything that refines (in body mode) a state [sb]
+    which still has the objects of [s] gives back a refinement of [s] *)
+Lemma pop_snapshot_le s sb s2 :
+  WFJ s ->
+  journal sb = snap_entry s :: journal s -> txs sb = txs s -> cf sb = cf s -> auxeq (aux s) (aux sb) ->
+  (forall x o, objs s x = Some o -> objs sb x = Some o) ->
+  rel false (snap_sc s) sb s2 ->
+  le s (pop_undo s2).
+Proof.
+  intros (W&O&R) Jb Tb Cb Xb Ob (J&T&C&X&Oc&_).
+  assert (J2 : journal s2 = snap_entry s :: journal s) by congruence.
+  rewrite (pop_undo_cons s2 _ _ J2). cbv zeta. simpl dirtied. cbv iota.
+  unfold snap_entry. simpl undo. sdb_simp. rewrite <- C, Cb, R.
+  apply le_intro; sdb_simp.
+  - reflexivity.
+  - congruence.
+  - congruence.
+  - eapply auxeq_trans; eauto.
+  - unfold cur_store at 2. sdb_simp. reflexivity.
+  - intros x. apply dle_refl.
+  - intros x. unfold lookrel, lookup, cur_store. sdb_simp. fold (cur_store s).
+    destruct (objs s x) as [o|] eqn:Ho.
+    + assert (Hsc : snap_sc s x = true) by (unfold snap_sc; rewrite Ho; reflexivity).
+      rewrite Hsc.
+      destruct (Oc x Hsc) as [L D]. pose proof (Ob x o Ho) as Hb.
+      assert (Hn : objs s2 x <> None) by (apply D; rewrite Hb; discriminate).
+      unfold lookrel, lookup in L. rewrite Hb in L. destruct (objs s2 x) as [o2|]; [|contradiction].
+      split; [rewrite <- Tb; exact L | intros _; discriminate].
+    + assert (Hsc : snap_sc s x = false) by (unfold snap_sc; rewrite Ho; reflexivity).
+      rewrite Hsc.
+      split; [|intros H; contradiction]. destruct (accs (cur_store s) x); [apply ole_refl|exact I].
+Qed.
+
+Lemma precompile_call_ok s sends fails : op_ok s (precompile_call s sends fails).
+Proof.
+  intros HW. pose proof HW as (_&_&Hrep).
+  set (n := length (journal s)).
+  set (s1 := precompile_snapshot s).
+  assert (J1 : journal s1 = snap_entry s :: journal s) by apply snapshot_journal.
+  assert (HW1 : WFJ s1) by (apply WFJ_snapshot; exact HW).
+  (* the common core: for any [s2] that is a body-mode refinement of a base keeping the objects *)
+  assert (Hcore : forall sb s2 es,
+             journal sb = snap_entry s :: journal s -> txs sb = txs s -> cf sb = cf s -> auxeq (aux s) (aux sb) ->
+             (forall x o, objs s x = Some o -> objs sb x = Some o) ->
+             journal s2 = es ++ journal sb -> rel false (snap_sc s) sb (unwind_k (length es) s2) ->
+             le s (unwind n s2)).
+  { intros sb s2 es Jb Tb Cb Xb Ob J2 HR.
+    replace (unwind n s2) with (pop_undo (unwind_k (length es) s2)).
+    - eapply pop_snapshot_le; eauto.
+    - rewrite (unwind_prefix (es ++ [snap_entry s]) (journal s) n s2); [|rewrite J2, Jb, <- app_assoc; reflexivity|reflexivity].
+      rewrite app_length, unwind_k_add. reflexivity. }
+  assert (Hlim : le s (unwind n s1)).
+  { apply (Hcore s1 s1 []); auto.
+    - apply snapshot_txs.
+    - apply snapshot_cf.
+    - unfold s1. rewrite snapshot_aux. apply auxeq_refl.
+    - intros x o Ho. unfold s1. rewrite snapshot_objs. exact Ho.
+    - apply rel_refl. }
+  unfold precompile_call. fold n s1.
+  assert (Hrev : forall sX, (n <= length (journal sX))%nat -> le s (unwind n sX) -> WFJ sX ->
+                 (length (journal s) <= length (journal (unwind n sX)))%nat /\
+                 le s (unwind (length (journal s)) (unwind n sX)) /\ WFJ (unwind n sX)).
+  { intros sX Hlen HL HWX. pose proof (unwind_len n sX Hlen) as Hl. fold n.
+    split; [lia|]. split; [|apply WFJ_unwind; exact HWX].
+    rewrite <- Hl at 1. rewrite unwind_id. exact HL. }
+  destruct (maxc (cf s) <? calls s1).
+  - apply Hrev; [rewrite J1; simpl; unfold n; lia | exact Hlim | exact HW1].
+  - set (sF := commit_cache s1).
+    assert (HWF : WFJ sF) by (apply WFJ_commit_cache; exact HW1).
+    assert (HDF : domsub (snap_sc s) sF).
+    { intros a Ha. destruct HWF as (W&_). eapply W; [|exact Ha].
+      change (journal sF) with (journal s1). rewrite J1. left. reflexivity. }
+    destruct (run_sends_bop (snap_sc s) sends sF HWF HDF) as (es & J2 & P2 & R2 & W2 & D2).
+    set (s2 := run_sends sends sF) in *.
+    assert (HL2 : le s (unwind n s2)).
+    { apply (Hcore sF s2 es); auto.
+      - change (journal sF) with (journal s1). exact J1.
+      - change (txs sF) with (txs s1). apply snapshot_txs.
+      - change (cf sF) with (cf s1). apply snapshot_cf.
+      - change (aux sF) with (aux s1). unfold s1. rewrite snapshot_aux. apply auxeq_refl.
+      - intros x o Ho. change (objs sF) with (flush_objs s1). apply flush_objs_keep.
+        + unfold s1. rewrite snapshot_cf. exact Hrep.
+        + unfold s1. rewrite snapshot_objs. exact Ho. }
+    assert (Hlen2 : (n <= length (journal s2))%nat).
+    { rewrite J2. change (journal sF) with (journal s1). rewrite J1, app_length. simpl. unfold n. lia. }
+    destruct fails.
+    + apply Hrev; assumption.
+    + split; [exact Hlen2|]. split; [exact HL2 | exact W2].
+Qed.
